@@ -630,6 +630,10 @@ pub fn cases(ctx: &Ctx) -> Vec<Case> {
             }
         }
     }
+    // a long life: more transactions than fit into 16 bits (a transaction id, a generation of pending pages
+    // or a counter that is narrowed somewhere wraps here; none of the other runs gets beyond a few thousand)
+    i += 1;
+    v.push(Case { kind: "fixed-size-overwrite".to_string(), pagesize: 1024, txs: if ctx.thorough() { 270_000 } else { 67_000 }, reopen_every: 16_500, reader: (0, 0), handover: false, readers: vec![], seed: ctx.seed.wrapping_mul(733).wrapping_add(i) });
     // a bucket that is written to and deleted in one transaction, with and without reopen
     for reopen in [0usize, 7] {
         i += 1;
@@ -725,6 +729,9 @@ pub fn run(ctx: &Ctx) -> Shard {
         shard.sample(serde_json::json!({"workload": c.kind, "pagesize": c.pagesize, "reopen_every": c.reopen_every, "reader_held": c.reader,
             "transactions": o.hwm.len(), "max_live_pages_L": o.max_live, "max_pages_per_commit_D": o.max_delta, "hwm_series_downsampled": series}));
         shard.count("transactions", o.hwm.len() as u64);
+        if o.hwm.len() > 65_536 {
+            shard.count("runs_of_more_than_65536_transactions_on_one_file", 1);
+        }
         shard.count("fileck_conservation_checks", o.fileck_runs);
         shard.count("writer_begins_whose_free_set_was_compared_with_the_unreachable_pages", o.exactness_checks);
         shard.count("commits_that_freed_pages_without_writing_a_tree_page", o.free_only_commits);
